@@ -1,0 +1,31 @@
+//go:build verif
+
+// Verification hooks for property C19 (add-only, compiled only with -tags verif).
+package event
+
+import (
+	"github.com/AliceO2Group/Control/common/event/topic"
+	"github.com/AliceO2Group/Control/common/monitoring"
+	"github.com/segmentio/kafka-go"
+)
+
+// VerifC19NewWriter builds a KafkaWriter through NewWriterWithTopic itself (same channel and
+// buffer, same two loops, already running) and then replaces the unexported write function, the
+// way writer_test.go does, by one that hands every batch to the caller instead of to a broker.
+// The field is read by the writing loop only after a message went through the channel and the
+// FIFO, both of which synchronise with this assignment, so there is no race as long as nothing is
+// published before this function returns.
+func VerifC19NewWriter(t string, write func([]kafka.Message)) *KafkaWriter {
+	w := NewWriterWithTopic(topic.Topic(t))
+	w.writeFunction = func(messages []kafka.Message, _ *monitoring.Metric) {
+		write(messages)
+	}
+	return w
+}
+
+// VerifC19Probe reports the number of messages in the channel, in the FIFO buffer, and of
+// tokens in the batching-loop-done channel (read-only; used by the harness to wait for
+// quiescence between scheduled steps).
+func VerifC19Probe(w *KafkaWriter) (inChannel, inBuffer, doneTokens int) {
+	return len(w.toBatchMessagesChan), w.messageBuffer.Length(), len(w.batchingLoopDoneCh)
+}
